@@ -203,9 +203,69 @@ class Expander:
                 s.body = self.block(s.body, clsname, s)
 
     # -- statements
+    def callable_lookup(self, s, clsname):
+        """s is `x = TABLE[K]` / `x = TABLE.get(K[, None])` and every value of TABLE is a lambda or the name of a module-level function"""
+        if not (isinstance(s, ast.Assign) and len(s.targets) == 1 and isinstance(s.targets[0], ast.Name)):
+            return None
+        found = self.find_lookup(s, clsname)
+        if found is None or found[0] is not s.value:
+            return None
+        node, lit, key, default, raises = found
+        fnames = {n.name for n in self.tree.body if isinstance(n, ast.FunctionDef)}
+        if not all(isinstance(v, ast.Lambda) or (isinstance(v, ast.Name) and v.id in fnames) for v in lit.values):
+            return None
+        if default is not None and not (isinstance(default, ast.Constant) and default.value is None):
+            return None
+        return found
+
+    def sink(self, s, rest, found, clsname, fn):
+        """x = TABLE.get(K); REST   ->   if K == k1: REST[x := v1] elif ... else: REST[x := None]     (values are callables: REST calls x)"""
+        node, lit, key, default, raises = found
+        x = s.targets[0].id
+        for t in rest:
+            for n in ast.walk(t):
+                if isinstance(n, ast.Name) and n.id == x and isinstance(n.ctx, (ast.Store, ast.Del)):
+                    return None
+
+        fnames = {n.name for n in self.tree.body if isinstance(n, ast.FunctionDef)}
+
+        def arm(val):
+            body = []
+            for t in rest:
+                nt = _Simplify(fnames).visit(_Sub({x: val}).visit(copy.deepcopy(t)))
+                if nt is None:
+                    continue
+                for y in (nt if isinstance(nt, list) else [nt]):
+                    body.append(y)
+                    if isinstance(y, (ast.Return, ast.Raise)):
+                        break          # what follows is dead in this arm
+                if body and isinstance(body[-1], (ast.Return, ast.Raise)):
+                    break
+            return self.block(body, clsname, fn) or [ast.copy_location(ast.Pass(), s)]
+        if raises:
+            tail = [ast.copy_location(ast.Raise(exc=ast.Call(func=ast.Name(id='KeyError', ctx=ast.Load()), args=[copy.deepcopy(key)], keywords=[]), cause=None), s)]
+            tail[0]._synthetic_keyerror = True
+        else:
+            tail = arm(ast.Constant(value=None))
+        top = None
+        for k, val in reversed(list(zip(lit.keys, lit.values))):
+            test = ast.Compare(left=copy.deepcopy(key), ops=[ast.Eq()], comparators=[copy.deepcopy(k)])
+            top = ast.If(test=test, body=arm(val), orelse=tail if top is None else [top])
+            ast.copy_location(top, s)
+            for n in ast.walk(top.test):
+                ast.copy_location(n, s)
+        ast.fix_missing_locations(top)
+        return [top]
+
     def block(self, stmts, clsname, fn):
         out = []
-        for s in stmts:
+        for i_, s in enumerate(stmts):
+            found = self.callable_lookup(s, clsname) if i_ + 1 < len(stmts) else None
+            if found is not None:
+                rep = self.sink(s, stmts[i_ + 1:], found, clsname, fn)
+                if rep is not None:
+                    out.extend(rep)
+                    return out
             for fld in ('body', 'orelse', 'finalbody'):
                 v = getattr(s, fld, None)
                 if isinstance(v, list) and v and isinstance(v[0], ast.stmt) and not isinstance(s, (ast.FunctionDef, ast.AsyncFunctionDef, ast.ClassDef)):
@@ -322,6 +382,7 @@ class Expander:
             return _replace_copy(s, node, val, key, kconst)
         if raise_missing:
             tail = [ast.copy_location(ast.Raise(exc=ast.Call(func=ast.Name(id='KeyError', ctx=ast.Load()), args=[copy.deepcopy(key)], keywords=[]), cause=None), s)]
+            tail[0]._synthetic_keyerror = True      # stands for the KeyError of TABLE[KEY] itself
         else:
             tail = [arm(default, None)]
         top = None
@@ -385,3 +446,38 @@ class _Getattr(ast.NodeTransformer):
 
 def expand_tables(tree):
     return Expander(tree).run()
+
+
+class _Simplify(ast.NodeTransformer):
+    """after a callable was substituted for a name: (lambda a: E)(x) -> E[a := x];  <lambda/function/None> is None -> constant; if <constant>: ..."""
+
+    def __init__(self, fnames=()):
+        self.fnames = set(fnames)
+
+    def visit_Call(self, node):
+        self.generic_visit(node)
+        f = node.func
+        if isinstance(f, ast.Lambda) and not node.keywords and not f.args.vararg and not f.args.kwarg and not f.args.kwonlyargs and not f.args.defaults \
+                and len(f.args.args) == len(node.args) and not any(isinstance(a, ast.Starred) for a in node.args):
+            m = {p.arg: a for p, a in zip(f.args.args, node.args)}
+            new = _Sub(m).visit(copy.deepcopy(f.body))
+            for x in ast.walk(new):
+                ast.copy_location(x, node)
+            return _Getattr().visit(new)
+        return node
+
+    def visit_Compare(self, node):
+        self.generic_visit(node)
+        if len(node.ops) == 1 and isinstance(node.ops[0], (ast.Is, ast.IsNot)) and isinstance(node.comparators[0], ast.Constant) and node.comparators[0].value is None:
+            l = node.left
+            if isinstance(l, ast.Lambda) or (isinstance(l, ast.Name) and l.id in self.fnames):
+                return ast.copy_location(ast.Constant(value=isinstance(node.ops[0], ast.IsNot)), node)
+            if isinstance(l, ast.Constant) and l.value is None:
+                return ast.copy_location(ast.Constant(value=isinstance(node.ops[0], ast.Is)), node)
+        return node
+
+    def visit_If(self, node):
+        self.generic_visit(node)
+        if isinstance(node.test, ast.Constant) and isinstance(node.test.value, bool):
+            return (node.body if node.test.value else node.orelse) or None
+        return node
